@@ -283,7 +283,7 @@ def run(A, R: Report, thorough: bool):
     R.explanation = ('Taint-style rule: the list filled while iterating as_completed() is completion-ordered; it may reach the returned list only through sorted(key=index) applied in '
                      'the scope where the indices are unique (sanitiser), or unsorted when sort=False. Structural rules for the worker, the submission comprehension, the sequential shortcut '
                      'and the chunking idiom. Not decided: real schedules; exactly-once under executor semantics.')
-    R.trusted = TRUSTED_BASE + ['sorted() with a key on unique integers is a total order', 'asyncio.as_completed yields in completion order']
+    R.trusted = TRUSTED_BASE + ['sorted() with a key on unique integers is a total order', 'asyncio.as_completed yields in completion order', 'asyncio.run() closes the loop it created and leaves the thread without a current event loop; asyncio.get_event_loop() then raises in the main thread']
     R.rule('R17.1', 'completion-ordered results pass a sort on the submission index, inside the scope of those indices, before they are returned (when sorting is requested)', floor=2)
     R.rule('R17.2', 'fun is applied once per element on the sequential and on the pooled path; nothing swallows its exception', floor=6)
     pms = [f for f in A.prog.functions.values() if f.name == 'parallel_map' and f.parent is None]
@@ -383,3 +383,28 @@ def run(A, R: Report, thorough: bool):
         if not (ty.value is not None and src(ty.value) == lst):
             problems.append('the trailing yield does not yield the collected chunk')
     R.check(not problems, 'R17.3', 'chunked', key_of('chunked', sorted(problems)), 'chunking idiom well-formed', '; '.join(problems), where=where(fc))
+
+    # ---- R17.6 the helpers share the thread's event loop: none of them may take it away from the others
+    R.rule('R17.6', 'while some helper obtains the loop with asyncio.get_event_loop(), no code closes or unsets the thread\'s current loop (asyncio.run, loop.close, set_event_loop(None))', floor=1)
+    users, killers = [], []
+    for f_ in A.prog.functions.values():
+        for n_ in A.typer.own_nodes(f_):
+            if isinstance(n_, ast.Call):
+                fn = src(n_.func)
+                if fn.endswith('get_event_loop'):
+                    users.append((f_, n_))
+                elif fn in ('asyncio.run', 'run') and fn == 'asyncio.run':
+                    killers.append((f_, n_))
+                elif fn.endswith('.close') and 'loop' in fn.lower():
+                    killers.append((f_, n_))
+                elif fn.endswith('set_event_loop') and n_.args and isinstance(n_.args[0], ast.Constant) and n_.args[0].value is None:
+                    killers.append((f_, n_))
+    if not users:
+        R.ok('R17.6', 'event loop', 'no helper depends on a current event loop', where='-')
+    else:
+        R.check(not killers, 'R17.6', 'event loop shared by the parallel_map helpers', key_of('loop-killers', sorted({f'{f_.short}:{src(n_)[:30]}' for f_, n_ in killers})),
+                f'{len(users)} user(s) of the current loop ({", ".join(sorted({f_.short for f_, _ in users}))}); nobody closes it',
+                f'`{src(killers[0][1])[:40] if killers else ""}` in {killers[0][0].short if killers else ""} closes / unsets the thread\'s current event loop, while {", ".join(sorted({f_.short for f_, _ in users}))} '
+                'still gets its loop from asyncio.get_event_loop(): after one call of the former, the latter raises "There is no current event loop" instead of returning the mapped list',
+                where=where(killers[0][0], killers[0][1]) if killers else where(users[0][0], users[0][1]))
+
